@@ -76,7 +76,11 @@ def parseCand (w : List String) : Option Cand :=
     let acb ← acb.toNat?
     let acs ← acs.toNat?
     let acok ← Driver.boolArg acok
-    let sl ← sl.toNat?
+    -- `<signature length>` or `<signature length>/<stateRoot length>` (32 when left out)
+    let (sl, srl) ← (match sl.splitOn "/" with
+      | [a] => a.toNat?.map (fun x => (x, 32))
+      | [a, b] => a.toNat?.bind (fun x => b.toNat?.map (fun y => (x, y)))
+      | _ => none)
     let sok ← Driver.boolArg sok
     let txst ← parseBits txst
     let txr ← Driver.boolArg txr
@@ -95,7 +99,7 @@ def parseCand (w : List String) : Option Cand :=
       pure { version := version, height := height, timestamp := timestamp, prevID := prev, gen := gen,
              id := id, mhp := mhp, mhg := mhg, impliesMaxPrevotes := imp,
              ac := { height := ach, bitsLen := acb, sigLen := acs, sigOK := acok },
-             sigLen := sl, sigOK := sok, txStatic := txst, txRootOK := txr, assets := assets,
+             sigLen := sl, stateRootLen := srl, sigOK := sok, txStatic := txst, txRootOK := txr, assets := assets,
              assetRootOK := asr, payloadSize := size, abiInit := h0, abiVerifyAssets := h1,
              abiBefore := h2, abiAfter := h3, txs := txs, change := change, vhOK := vh, nEvents := nev,
              eventRootOK := er, commitOK := commit }
